@@ -443,6 +443,7 @@ type Contract struct {
 	Extern        bool // assumed contract on a dependency
 	Trusted       bool // in-repo function whose body is not verified (listed)
 	AssumeEnsures bool
+	AssumedClauses map[string]bool // "assumed <clause-name>...": these ensures clauses are definitions/assumptions, not proved
 	File          string
 	Requires      []Clause
 	Domain        []Clause // domain of the functional clauses: assumed only when proving them, never required of callers
@@ -713,6 +714,16 @@ func (S *Specs) LoadFile(path string, extern bool) error {
 			cur.NoReturn = true
 		case "trusted":
 			cur.Trusted = true
+		case "assumed":
+			if cur == nil {
+				return fail(fmt.Errorf("assumed outside func"))
+			}
+			if cur.AssumedClauses == nil {
+				cur.AssumedClauses = map[string]bool{}
+			}
+			for _, n := range strings.Fields(strings.ReplaceAll(rest, ",", " ")) {
+				cur.AssumedClauses[n] = true
+			}
 		case "assume_ensures":
 			// the postconditions are assumptions (listed), but the body is still verified for
 			// everything else: panic freedom, frames, call-site and return assertions
